@@ -547,6 +547,33 @@ ActBatch(items, blinders) ==
                                   THEN [ok |-> FALSE, err |-> res.err, singles |-> res.singles, plains |-> res.singles]
                                   ELSE ErrProj(res)])
 
+
+-----------------------------------------------------------------------------
+(* persistence: a participant saves local state at a round boundary and     *)
+(* continues from the decoded copy.  Decode(Encode(st)) = st, so the action  *)
+(* leaves the environment unchanged -- provided the state is encodable: an   *)
+(* identity element has no encoding, which is why the refresh code strips    *)
+(* the identity entry from the commitments it stores.                        *)
+
+NoIdent(seq) == \A k \in DOMAIN seq : ~IsIdent(seq[k])
+Encodable(o) ==
+  CASE o.ty \in {"r1s", "r2s", "ss"} -> NoIdent(o.commit)
+    [] o.ty = "r1p"  -> NoIdent(o.commit) /\ ~IsIdent(o.R)
+    [] o.ty = "kp"   -> ~IsIdent(o.vs) /\ ~IsIdent(o.vk)
+    [] o.ty = "pkp"  -> ~IsIdent(o.vk) /\ \A i \in DOMAIN o.vs : ~IsIdent(o.vs[i])
+    [] o.ty \in {"non", "comm"} -> ~IsIdent(o.D) /\ ~IsIdent(o.E)
+    [] o.ty = "pkg"  -> ~ListHasIdent(o.comms)
+    [] o.ty = "sig"  -> ~IsIdent(o.R)
+    [] OTHER -> TRUE
+
+ActReload(h, form) ==
+  /\ Has(h)
+  /\ ro' = ro
+  /\ LET res == IF Encodable(env[h]) THEN [ok |-> TRUE, same |-> TRUE] ELSE [ok |-> FALSE, stage |-> "ser"] IN
+     /\ last' = [op |-> "reload", res |-> res]
+     /\ env' = env
+     /\ hist' = Append(hist, [op |-> "reload", h |-> h, form |-> form, expect |-> res])
+
 -----------------------------------------------------------------------------
 (* emission of a finished behaviour as one replayable script *)
 
